@@ -69,7 +69,7 @@ EXTEND_MAX_ELEMENTS = 120
 # calibrated on the unchanged /repo tree: about 10 x the worst relative residual seen per rung over all mesh families /
 # variants / seeds (worst seen: 2.1e-2, 4.2e-4, 3.0e-5, 1.4e-5, 2.9e-6, 2.5e-7, 5.0e-8; the `worst_<rung>` stats repeat
 # the measurement on every run)
-RUNG_BOUND = {(4, 4): 1.5e-1, (6, 6): 4e-3, (8, 8): 3e-4, (10, 10): 1e-4, (12, 10): 2e-5, (14, 12): 3e-6, (16, 14): 1e-6}
+RUNG_BOUND = {(4, 4): 1.5e-1, (6, 6): 4e-3, (8, 8): 6e-4, (10, 10): 1e-4, (12, 10): 2e-5, (14, 12): 3e-6, (16, 14): 1e-6}
 CONST_BOUND = dict(RUNG_BOUND)        # ||(1/2 M + K) 1|| / ||1/2 M 1||
 NONINCR = 1.5                         # a rung may not be worse than 1.5 x the previous one ...
 DECAY2 = 0.3                          # ... and two rungs up the residual must have shrunk to 30 % (observed <= 0.1) ...
@@ -169,7 +169,7 @@ def mesh_quality(V, E):
 
 
 MIN_DIHEDRAL = 64.0     # degrees; the statement's "bounded aspect ratio": sharper wedges slow the Duffy rules down
-MIN_TRI_ANGLE = 20.0    # (a stretched 4-element tetrahedron with a 50 degree wedge still has 2.7e-5 at singular order 10)
+MIN_TRI_ANGLE = 22.0    # (a stretched 4-element tetrahedron with a 50 degree wedge still has 2.7e-5 at singular order 10)
 
 
 def make_mesh(name, variant, rng):
@@ -424,7 +424,8 @@ def oracle(ctx, deep=False, cal=False, only=None):
     worst_const = {}
     reached, climbed = {}, {}
     n_extra, max_extra = 0, (4 if not deep else 1000)
-    jit_cpu = 0.0   # CPU time of the Numba compilation (first rung of a mesh beyond 1 s): not charged to the budget
+    jit_cpu = 0.0   # CPU time dominated by Numba compilation (the whole first mesh: grid, spaces, operators; later the
+    #                 first rung of a mesh beyond 1 s): not charged to the budget
     edge_cov, vert_cov = set(), set()
     plan = _plan(ctx, deep)
     if only:
@@ -477,7 +478,7 @@ def oracle(ctx, deep=False, cal=False, only=None):
                 # alternate between an explicit parameter object and the global parameters (both routes are public API)
                 c_rung = time.process_time()
                 mats = Assembled(api, spaces, these, reg, sing, use_global=(ri % 2 == 1))
-                if ri == 0:
+                if ri == 0 and done > 0:
                     jit_cpu += max(0.0, time.process_time() - c_rung - 1.0)
                 for ident in these:
                     w, wdet = 0.0, None
@@ -512,7 +513,8 @@ def oracle(ctx, deep=False, cal=False, only=None):
                 # extension rungs cost 2x / 4x the singular work of (12,10), so only on meshes of moderate size)
                 if (ri == last and extend and ri >= TARGET_RUNG and ri + 1 < len(LADDER)
                         and grid.number_of_elements <= EXTEND_MAX_ELEMENTS
-                        and max(per_rung[i_][-1][0] for i_ in these) > TARGET):
+                        and TARGET < max(per_rung[i_][-1][0] for i_ in these) <= RUNG_BOUND[LADDER[ri]]):
+                    # (a residual above the rung's calibrated bound is reported as it is: no point in climbing on)
                     last += 1
                 ri += 1
             # criteria (one counterexample per identity and kind of failure: the highest failing rung is reported)
@@ -541,6 +543,8 @@ def oracle(ctx, deep=False, cal=False, only=None):
                     reached[ident] = reached.get(ident, 0) + (1 if seq[-1][0] <= TARGET else 0)
                     climbed[ident] = max(climbed.get(ident, 0), len(seq) - 1)
             done += 1
+            if done == 1:
+                jit_cpu = time.process_time() - c_start
             ctx.log(f"C01 oracle: {mesh['desc']} ({grid.number_of_elements} el, {mesh['family']}, dihedral "
                     f"{mesh['min_dihedral']:.0f}) top {LADDER[len(per_rung[these[0]]) - 1]}: "
                     + " ".join("%s=%.1e" % (i_, per_rung[i_][-1][0]) for i_ in these)
